@@ -82,8 +82,13 @@ class State:
         self.e = urwid.Edit(c, t, multiline=multiline, allow_tab=allow_tab, wrap=wrap, align=align, mask=m)
         self.ref = Ref(txt)
         self.events: list = []
-        urwid.connect_signal(self.e, "change", lambda w_, new: self.events.append(("change", new, w_.edit_text)))
-        urwid.connect_signal(self.e, "postchange", lambda w_, old: self.events.append(("postchange", old, w_.edit_text)))
+        # two users connected the same callback; one of them has disconnected again: the other is still told about every modification, once
+        on_change = lambda w_, new: self.events.append(("change", new, w_.edit_text))  # noqa: E731
+        on_post = lambda w_, old: self.events.append(("postchange", old, w_.edit_text))  # noqa: E731
+        for name, cb in (("change", on_change), ("postchange", on_post)):
+            urwid.connect_signal(self.e, name, cb)
+            urwid.connect_signal(self.e, name, cb)
+            urwid.disconnect_signal(self.e, name, cb)
 
     def text(self):
         t = self.e.edit_text
